@@ -5,7 +5,7 @@ HERE = os.path.dirname(os.path.dirname(os.path.abspath(__file__)))
 
 CHECKS = {
  "C01": dict(level="exploration", technique="runtime monitoring: differential result oracle (NumPy shadow interpreter) over generated recipes on the real executors",
-   text="Every generated expression is computed by the real cubed code on real executors and its result compared element-wise with an independent NumPy evaluation; held = no disagreement on the executions listed in the evidence. Exploration is the right level: the input space is unbounded, so reach comes from generator diversity (shapes, chunkings, dtypes, compositions, executors), not enumeration.",
+   text="Every generated expression is computed by the real cubed code on real executors and its result compared element-wise with an independent NumPy evaluation; held = no disagreement on the executions listed in the evidence. The generator also draws one array for both operands of matmul/tensordot/vecdot/outer, stack inputs with equal block counts but different chunk sizes, negative axes and zero counts. Exploration is the right level: the input space is unbounded, so reach comes from generator diversity (shapes, chunkings, dtypes, compositions, executors), not enumeration.",
    note="Trusts NumPy as reference and the harness's own recipe interpreters; geometries beyond the generator's bounds and executors not installed (dask, lithops, ...) are not observed.", ref="3/C01"),
  "C02": dict(level="exploration", technique="runtime monitoring: differential oracle (same recipe computed unoptimised vs under each optimiser setting, bit-exact) + read-back of requested arrays from storage",
    text="Each generated DAG is executed by the real code unoptimised and under default/multiple-input/legacy/fuse-all/fuse-only optimisers with random always/never-fuse subsets; requested arrays must be bit-identical and present in storage. A third of the recipes also save a requested array with a lazy store/to_zarr into a path or an existing array of equal/finer/coarser/unrelated chunking and request a consumer of the stored array; the target is read back with plain zarr. Held = no difference on the (recipe, optimiser) pairs listed.",
@@ -14,7 +14,7 @@ CHECKS = {
    text="A table of 46 programs covering every operation family at data-dominated chunk sizes, five geometries, three dtypes, fused/unfused, compressor None/default: every task's traced peak must stay within its operation's projected memory. Three open, mechanism-keyed findings (compressed storage buffers; previous block alive in multi-block reads; undeclared function temporaries) are matched by configuration + producing function + segment kind + ratio ceiling; two thirds of the budget run without a compressor where only the two narrower findings can match.",
    note="tracemalloc does not see C-level allocations inside codecs; an under-projection smaller than an operation's slack is invisible (maximum observed ratio per program is in the evidence).", ref="3/C03"),
  "C04": dict(level="exploration", technique="runtime monitoring at the admission boundary: wrapping executor entry counter + store tracer + work-directory snapshot around compute/store/to_zarr, judged against the finalized plan's own per-op projected memory at allowed = P-1, P, P+1; post-condition wrappers (icontract on fuse, hand-written on the varargs fuse_multiple) for fused projected memory",
-   text="For generated programs under both optimiser settings and several reserved_mem values the budget is set just below, at and above the plan's own maximum projected memory; an over-budget plan must be refused with no executor entry, no store mutation and no new file (eager and lazy store forms included); a plan within budget must not get the memory error; the default optimiser must not turn a fitting plan into a non-fitting one; fused ops must report at least the memory of the ops they replace.",
+   text="For generated programs under both optimiser settings and several reserved_mem values the budget is set just below, at and above the plan's own maximum projected memory; an over-budget plan must be refused with no executor entry, no store mutation and no new file (eager and lazy store forms included); a plan within budget must not get the memory error; the default optimiser must not turn a fitting plan into a non-fitting one; fused ops must report at least the memory of the ops they replace. 30% of the recipes end in f(b, b) and the budget at which the unoptimised plan just fits is probed as well.",
    note="P is taken from the plan cubed itself finalizes under that budget (plans whose shape depends on the budget are re-probed at their own boundary).", ref="3/C04"),
  "C05": dict(level="exploration", technique="runtime monitoring: attributed store-level trace (who wrote which chunk key) + block-write hook on zarr.Array.__setitem__, judged against the chunk grid read back from stored metadata",
    text="Every task of every generated plan runs one at a time under a harness executor that attributes each store write to its task; monitors check one writer task per stored chunk, whole-chunk write regions, and that every chunk of every produced array's grid was written. Two further workloads: store/to_zarr into user-supplied targets (existing arrays of any chunking, sharded, regions), and direct regular/irregular rechunks under budgets that need two or more copy stages.",
@@ -32,10 +32,10 @@ CHECKS = {
    text="For each small program (40% of them saving their requested arrays, and sometimes an intermediate, to user paths with lazy store/to_zarr) every crash point at task and chunk-write granularity is enumerated (sampled above the cap); the resumed run must refuse up front or reproduce the uninterrupted values, must not delete or change any chunk file that existed after the crash, must not re-execute operations that had completed (except create-arrays / 0-d outputs) and must not skip incomplete ones.",
    note="Injected crashes are Python exceptions raised at the store boundary; true process death is exercised by the os._exit variant. Tasks are assumed deterministic (C06).", ref="3/C09"),
  "C10": dict(level="exploration", technique="runtime monitoring of API histories: a NumPy shadow of a pool of related lazy arrays is kept alongside random sequences of derive/compute/store/to_zarr/re-compute/config-change calls; after every step sampled members are computed and compared, and directory digests of inputs and of earlier store targets are re-checked",
-   text="Histories exercise the real API in arbitrary order, in particular storing arrays that other pool members were derived from, lazily and eagerly, into new and existing targets, and computing with resume/optimisation/executor variations; held = every probe equalled the shadow and no input or earlier target changed, on the histories listed.",
+   text="Histories exercise the real API in arbitrary order, in particular storing arrays that other pool members were derived from, lazily and eagerly, into new and existing targets, and computing with resume/optimisation/executor variations (incl. the motif compute / compute(resume) / store / compute(resume)); held = every probe equalled the shadow and no input or earlier target changed, on the histories listed.",
    note="Values via NumPy shadow; 'unchanged' via blake2 digests of every file of a directory. Explicit refusals (ValueError/TypeError/NotImplementedError) while deriving or storing are allowed.", ref="3/C10"),
  "C11": dict(level="exploration", technique="runtime monitoring: sentinel-prefilled targets read back with plain zarr and compared with a NumPy paste model; store trace inspected for writes before a rejection",
-   text="The call-shape matrix (source kind x target kind x region kind incl. misaligned, wrong-shape and overhanging regions x store/to_zarr x eager/lazy x pair lists x executor) is sampled with random geometry in each cell; every accepted call must leave exactly 'sentinel with the source pasted into the region' in every target; a rejected call must not have written to the target.",
+   text="The call-shape matrix (source kind x target kind x region kind incl. misaligned, wrong-shape and overhanging regions x store/to_zarr x eager/lazy x pair lists x executor) is sampled with random geometry in each cell; 30% of the calls compute the source before storing it; every accepted call must leave exactly 'sentinel with the source pasted into the region' in every target; a rejected call must not have written to the target.",
    note="Sentinel value must not occur in source data (harness-controlled). Targets are local directory stores.", ref="3/C11"),
  "C12": dict(level="exploration", technique="runtime monitoring: block-write hook (value shape vs region shape for every block written by every task) + declared-vs-computed-vs-stored metadata comparison",
    text="All block writes of generated plans (unoptimised so that every intermediate is written, and optimised) are observed at zarr.Array.__setitem__; a value whose shape differs from its region is a silent broadcast. Declared shape/dtype/chunks are compared with the computed result and with the backing Zarr array's metadata.",
@@ -44,10 +44,10 @@ CHECKS = {
    text="For every operation of every generated plan: advertised num_tasks == length of its task list == sum of task-end notifications; exactly one start/end per operation and per computation, in order; on single-threaded, threads (batching, compute_arrays_in_parallel) and processes.",
    note="Callbacks are observed in the client process; executors other than the three local ones are not installed.", ref="3/C13"),
  "C14": dict(level="exploration", technique="runtime contracts (icontract post-conditions) on the real rechunk planners, rebound on every module that imported them, with an evaluation counter; plus end-to-end rechunks under small allowed_mem with the store-level single-writer/whole-chunk monitors and a NumPy comparison",
-   text="Random geometries (1-3 dims, sizes rich in primes/powers, transposing patterns under tight budgets, item sizes 1-16, min_mem/max_mem from tight to invalid) and the bounded-exhaustive sweep of all small 1-D/2-D geometries are fed to both planners; every returned plan must chain, fit max_mem in every read/intermediate/write chunk, stay inside [1, dim], have intermediate = min(read, write) and line up with the chunks it writes; any exception other than ValueError/NotImplementedError is a violation. Termination = <= MAX_STAGES stages + watchdog.",
+   text="Random geometries (1-3 dims, sizes rich in primes/powers, transposing patterns under tight budgets, item sizes 1-16, min_mem/max_mem from tight to invalid) and the bounded-exhaustive sweep of all small 1-D/2-D geometries are fed to both planners; every returned plan must chain, fit max_mem in every read/intermediate/write chunk, stay inside [1, dim], have intermediate = min(read, write) and line up with the chunks it writes; any exception other than ValueError/NotImplementedError is a violation. End-to-end rechunks run under Specs with and without reserved_mem; a request the planner accepts but the memory check refuses is judged differentially against the same net budget with reserved_mem=0. Termination = <= MAX_STAGES stages + watchdog.",
    note="'The planner always terminates' is restated as a step bound plus a wall-clock watchdog whose firing is inconclusive. The sweep is exhaustive only for the stated tiny geometries.", ref="3/C14"),
  "C15": dict(level="exploration", technique="runtime monitoring over symbolic storage: the real blockwise/general_blockwise/apply_blockwise/fuse_multiple code runs on fake arrays whose blocks are terms; block functions record what they received (array, coordinates, position, block/list/iterator); oracles: independent index-algebra reference and the unfused run",
-   text="Index expressions (<= 4 symbols, <= 3 arguments, block counts 1-3 with per-argument broadcasting, new axes, contractions) are executed block by block through the real primitive and compared with a reference written from the design notes; fusion DAGs to depth 3 over seven key-function kinds are fused the way the optimiser does (can_fuse_multiple_primitive_ops + fuse_multiple) and compared with the unfused run term by term, including container kinds.",
+   text="Index expressions (<= 4 symbols, <= 3 arguments, 30% with one array under two different index expressions, block counts 1-3 with per-argument broadcasting, new axes, contractions) are executed block by block through the real primitive and compared with a reference written from the design notes; fusion DAGs to depth 3 over seven key-function kinds are fused the way the optimiser does (can_fuse_multiple_primitive_ops + fuse_multiple) and compared with the unfused run term by term, including container kinds.",
    note="Symbolic blocks exercise addressing and structure, not numerics. Thorough enumerates all expressions with <= 3 symbols and <= 2 arguments.", ref="3/C15"),
  "C16": dict(level="exploration", technique="runtime monitoring: store tracer (no set/delete/data get), work-directory snapshot and an execution-attempt counter on FinalizedPlan.execute while every public callable is invoked and results are planned, visualised and inspected; documented triggers asserted to execute",
    text="The public surface found by introspection is exercised through the recipe generator and a direct-call table (incl. plans of rechunks with rectilinear intermediates under tight memory); any store write, data read, new file or execution attempt during build/plan/visualize/inspect is a violation; a public callable never exercised makes the run inconclusive.",
@@ -55,11 +55,11 @@ CHECKS = {
  "C17": dict(level="exploration", technique="runtime monitoring: exception type and phase (build / plan / after executor entry, decided by a wrapping executor's entry counter) for recipes NumPy can evaluate",
    text="Generated expressions biased to unsupported corners are built, planned and executed; any exception must be ValueError/TypeError/NotImplementedError/IndexError raised before the executor is entered. Held = no other type and no mid-run failure on the runs listed, apart from the open known finding about zero-length dimensions (half of the budget cannot reach it).",
    note="Fault-free runs only. Exceptions with no cubed frame during recipe construction are harness errors (inconclusive).", ref="3/C17"), "C18": dict(level="exploration", technique="runtime monitoring: every multi-array public entry point called with arrays whose Specs differ in exactly one field (both argument orders), outcome and returned plans inspected; icontract post-condition on convert_to_bytes against an exact Fraction parser; plan budgets compared with the Spec",
-   text="Entry points x 7 spec fields x 2 orders are enumerated completely every run (the table is cross-checked against signature introspection of the public namespaces); tens of thousands of size literals (realistic and extreme strata, malformed and non-whole ones) are parsed by the real code and by an exact reference.",
+   text="Entry points x 7 spec fields x 2 orders are enumerated completely every run (the table is cross-checked against signature introspection of the public namespaces); arrays that take their Spec from cubed.config (8 fields differing alone x both creation orders) are checked the same way and against the configured values; tens of thousands of size literals (realistic and extreme strata, malformed and non-whole ones) are parsed by the real code and by an exact reference.",
    note="Entry-point enumeration is complete for the functions listed in the evidence; literal space is sampled. Functions allowed to accept (broadcast_arrays, meshgrid, take/index with an array) are checked not to combine both inputs in any returned plan.", ref="3/C18"),
  "C19": dict(level="exploration", technique="runtime monitoring: differential outcomes (accepted / type+phase of refusal / values) of one recipe under resource-configuration variants, compared pairwise with the explicit-default variant, plus NumPy",
-   text="Every generated expression is built and computed under the global default config (spec=None), an explicit equal Spec, another work_dir, an intermediate_store, compressor None/explicit, reserved_mem 0, executor named in the Spec and a larger allowed_mem; acceptance and bit-exact values must agree.",
-   note="Allowed memory is ample everywhere (so admission never differs legitimately); machine-memory checks of the threads executor are kept satisfiable.", ref="3/C19"),
+   text="Every generated expression is built and computed under the global default config (spec=None), an explicit equal Spec, another work_dir, an intermediate_store, compressor None/explicit, reserved_mem 0, executor named in the Spec and a larger allowed_mem; acceptance and bit-exact values must agree. Memory-tight rechunks with rectilinear intermediate grids are additionally computed with threads and processes named in the Spec.",
+   note="Allowed memory is ample in the recipe part (so admission never differs legitimately) and equal across variants in the executor matrix; machine-memory checks of the threads executor are kept satisfiable.", ref="3/C19"),
  "C20": dict(level="exploration", technique="runtime monitoring across processes: arrays built in a child process are shipped with cloudpickle and computed/combined in a receiver whose name counters are set to chosen values; NumPy oracle",
    text="Shipped arrays are computed alone, after a same-process round trip, as left and right operand with locally built arrays, and with arrays derived from themselves, for receivers that have created 0..k arrays (names overlapping the child's or beyond them). The open finding (name collisions) is matched only when names really coincide; the disjoint stratum cannot reach it.",
    note="Receiver history emulated by setting cubed's per-process counters; child and receiver share a filesystem.", ref="3/C20"),
